@@ -1,0 +1,17 @@
+//go:build verif
+
+package ioutil
+
+// Contracts for gocv (see /verif/DESIGN.md). Comment-only file.
+
+//@ package ioutil
+//@ import io "io"
+//@ import os "os"
+//@
+//@ ghost local ingChmodOK bool
+//@ func Ingest
+//@   entry set ingChmodOK = false
+//@   call (*File).Chmod set ingChmodOK = result == nil && args.mode == 384
+//@   call io.Copy requires [C18:chmod-0600-before-write] ingChmodOK
+//@   ensures [C18:temp-in-dir] ingestErr == nil ==> tempIn(path, dir)
+//@   modifies alloc, elems[byte], elems[any], ghost.readerOver
